@@ -213,6 +213,9 @@ def simplify_atom(atom):
         t, v = atom[1], atom[2]
         if t[0] == "adt":
             return t[2] == v
+        if t[0] == "checked" and len(t) == 5 and t[2] == "u-" and v in ("Some", "None"):
+            r_ = ("lt", t[3], t[4])
+            return r_ if v == "None" else ("not", r_)
         if v in COMPLEMENT:
             return ("not", ("is", t, COMPLEMENT[v]))
         return atom
